@@ -1,12 +1,11 @@
-import CG.Drv.C19
+import CG.Drv.All
 /-!
 Line-protocol driver: one request per line on stdin, one reply `model<TAB>spec[<TAB>sig]` per line.
 Executable only; imports Model/Spec/Crypto/Drv (never Mathlib, never proofs).
 -/
 open CG.Drv
 
-def handlers : List (String → List String → Option String) :=
-  [ C19.handle ]
+def handlers : List (String → List String → Option String) := allHandlers
 
 def dispatch (line : String) : String :=
   match line.trimAscii.toString.splitOn " " with
